@@ -37,12 +37,19 @@ func (b *bufFile) Seek(offset int64, whence int) (int64, error) { return 0, fmt.
 var denied = []string{"exec", "http", "net", "ssh", "sql", "pgx", "aws", "redis", "kubernetes", "vault", "slack", "github",
 	"playwright", "fetch", "nslookup", "rand", "time", "uuid", "sched"}
 
-func evalOnce(ctx context.Context, src string) string {
+func evalOnce(parent context.Context, src string) string {
+	// every evaluation has its own time budget; one that runs into it is reported as such (what a cancelled
+	// evaluation has produced so far depends on the clock, not on the program)
+	ctx, cancel := context.WithTimeout(context.Background(), 4*time.Second)
+	defer cancel()
 	out := &bufFile{}
 	vos := ros.NewVirtualOS(ctx, ros.WithStdout(out), ros.WithEnvironment(map[string]string{"B": "2", "A": "1", "C": "3"}))
 	res, err := risor.Eval(ctx, src, risor.WithOS(vos), risor.WithoutGlobals(denied...))
 	s := ""
 	if err != nil {
+		if ctx.Err() != nil || strings.Contains(err.Error(), "context deadline exceeded") {
+			return "TIMEOUT"
+		}
 		s = "ERR " + err.Error()
 	} else if res != nil {
 		s = "OK " + res.Inspect()
@@ -65,7 +72,7 @@ func main() {
 					fmt.Fprintf(w, "GOPANIC %v\n", strings.ReplaceAll(fmt.Sprint(r), "\n", " "))
 				}
 			}()
-			ctx, cancel := context.WithTimeout(context.Background(), 3*time.Second)
+			ctx, cancel := context.WithTimeout(context.Background(), 60*time.Second)
 			defer cancel()
 			cfg := risor.NewConfig(risor.WithoutGlobals(denied...))
 			var firstM []byte
@@ -99,13 +106,22 @@ func main() {
 			}
 			firstE := ""
 			sameE := 1
+			timedOut := false
 			for i := 0; i < n; i++ {
 				e := evalOnce(ctx, src)
+				if e == "TIMEOUT" {
+					timedOut = true
+					break
+				}
 				if i == 0 {
 					firstE = e
 				} else if e != firstE {
 					sameE = 0
 				}
+			}
+			if timedOut {
+				fmt.Fprintln(w, "TIMEOUT evaluation exceeded its time budget")
+				return
 			}
 			hm := sha256.Sum256(firstM)
 			he := sha256.Sum256([]byte(firstE))
